@@ -167,7 +167,7 @@ func VerifC07_Reclaim() {
 
 // VerifC07_ReclaimTwoLeafQueues: victims come from two leaf queues S1, S2 of one department D; the
 // reclaimer R is a top-level sibling of D, so the level at which the queues diverge is D for both.
-// BOUND: GPU dimension; quantities integers < 2^6; one victim from each of S1 and S2; multiplier 1; leaf queues S1, S2 with quota 0 and no limit; no limits on R and D; preemptible reclaimer
+// BOUND: GPU dimension; quantities integers < 2^6; one victim from each of S1 and S2; multiplier 1 or 2; leaf queues S1, S2 with quota 0 and no limit; no limits on R and D; preemptible reclaimer
 // ASSUME: reachable queue states as in VerifC07_Reclaim; children's allocation sums to at most the department's
 func VerifC07_ReclaimTwoLeafQueues() {
 	const bits = 6
@@ -189,7 +189,8 @@ func VerifC07_ReclaimTwoLeafQueues() {
 	v1 := vr.AnyFloatNat("victim1", bits)
 	v2 := vr.AnyFloatNat("victim2", bits)
 	vr.Assume(v1 > 0 && v2 > 0 && v1 <= s1.Allocated && v2 <= s2.Allocated)
-	r := New(1)
+	mult := float64(vr.Choose("multiplier", 2) + 1) // configured reclaimer saturation multiplier 1 or 2
+	r := New(mult)
 	info := &ReclaimerInfo{Name: "j", Namespace: "ns", Queue: R.UID, IsPreemptable: true, RequiredResources: c07Res(active, req)}
 	can := r.CanReclaimResources(queues, info)
 	ok := r.Reclaimable(queues, info, map[common_info.QueueID][]*resource_info.Resource{
@@ -207,6 +208,12 @@ func VerifC07_ReclaimTwoLeafQueues() {
 	}
 	final := sD.Allocated - v1 - v2
 	vr.Assert(c07OverDeservedOrFair(sD, final+larger), "C07.department-above-deserved-or-fair-share-before-its-last-victim")
+	// clause (d) between the reclaimer's top-level queue and the department it took from; a configured
+	// multiplier above 1 may only make the code stricter
+	if sD.FairShare > 0 {
+		sR := R.ResourceShare(active)
+		vr.Assert(c07NotMoreSaturated(sR.Allocated+req, sR.FairShare, final, sD.FairShare), "C07.reclaimer-not-above-fair-share-and-more-saturated-than-victim-department")
+	}
 }
 
 // c07NotMoreSaturated: the oracle of clause (d) - after the reclaim the queue A (allocation aAfter,
@@ -270,4 +277,50 @@ func VerifC07_ReclaimWithinAndAcrossDepartments() {
 	vr.Assert(c07NotMoreSaturated(d1.Allocated+req-v2, d1.FairShare, d2.Allocated-v3, d2.FairShare), "C07.reclaimers-department-not-above-fair-share-and-more-saturated-than-victim-department")
 	// leaf level inside D1: P1 (receives req) against P2 (loses v2)
 	vr.Assert(c07NotMoreSaturated(p1.Allocated+req, p1.FairShare, p2.Allocated-v2, p2.FairShare), "C07.reclaimers-queue-not-above-fair-share-and-more-saturated-than-sibling-queue")
+}
+
+// VerifC07_AncestorSaturationWithMultiplier: clause (d) with a configured reclaimer saturation
+// multiplier of 2: the multiplier may only make the comparison stricter, so the reclaimer's ancestor
+// P still never ends above its fair share and at least as saturated as the sibling S it took from.
+// BOUND: GPU dimension; quantities integers < 2^6; tree P <- R (reclaimer), S top-level sibling of P; one victim; multiplier 2; no limits; preemptible reclaimer
+// ASSUME: reachable queue states as in VerifC07_Reclaim; sibling fair share positive
+func VerifC07_AncestorSaturationWithMultiplier() {
+	c07AncestorSaturation("C07.ancestor-not-above-fair-share-and-more-saturated-with-multiplier-2")
+}
+
+// VerifC15_AncestorSaturationGuard: the same kernel as the mechanism of C15: a reclaim that leaves
+// the reclaimer's department above its fair share and at least as saturated as the department it
+// took from is what lets the two departments take from each other in turn.
+// BOUND: as VerifC07_AncestorSaturationWithMultiplier
+// ASSUME: as VerifC07_AncestorSaturationWithMultiplier
+func VerifC15_AncestorSaturationGuard() {
+	c07AncestorSaturation("C15.reclaim-leaves-reclaimers-department-less-saturated-than-its-victim")
+}
+
+func c07AncestorSaturation(id string) {
+	const bits = 6
+	active := rs.GpuResource
+	P := c07QueueBits("P", "", active, bits)
+	R := c07QueueBits("R", "P", active, bits)
+	S := c07QueueBits("S", "", active, bits)
+	P.ChildQueues = []common_info.QueueID{"R"}
+	queues := map[common_info.QueueID]*rs.QueueAttributes{"P": P, "R": R, "S": S}
+	sP, sR, sS := P.ResourceShare(active), R.ResourceShare(active), S.ResourceShare(active)
+	for _, s := range []*rs.ResourceShare{sP, sR, sS} {
+		vr.Assume(s.MaxAllowed == -1 && s.AllocatedNotPreemptible == 0)
+	}
+	vr.Assume(sR.Allocated <= sP.Allocated && sR.FairShare <= sP.FairShare && sS.FairShare > 0)
+	req := vr.AnyFloatNat("req", bits)
+	v := vr.AnyFloatNat("victim", bits)
+	vr.Assume(req > 0 && v > 0 && v <= sS.Allocated)
+	r := New(2)
+	info := &ReclaimerInfo{Name: "j", Namespace: "ns", Queue: R.UID, IsPreemptable: true, RequiredResources: c07Res(active, req)}
+	can := r.CanReclaimResources(queues, info)
+	ok := r.Reclaimable(queues, info, map[common_info.QueueID][]*resource_info.Resource{S.UID: {c07Res(active, v)}})
+	vr.Observe("can", can)
+	vr.Observe("reclaimable", ok)
+	if !can || !ok {
+		return
+	}
+	vr.Assert(c07NotMoreSaturated(sP.Allocated+req, sP.FairShare, sS.Allocated-v, sS.FairShare), id)
 }
